@@ -91,7 +91,7 @@ def run(chk):
     #    explores directed continuations (only the would-be winner's election timer fires); the verdict is a
     #    Raft invariant violated in a state of such a real-code continuation.
     variables = T.extract_vars(text)
-    wplans = [(3, 1, 1, 4, 400)] if quick else [(3, 2, 1, 16, 700), (5, 2, 2, 4, 600), (2, 1, 0, 4, 400)]
+    wplans = [(3, 2, 1, 3, 300)] if quick else [(3, 2, 1, 16, 700), (5, 2, 2, 4, 600), (2, 1, 0, 4, 400)]
     if "4" not in parts:
         wplans = []
     wstats = []
